@@ -1,7 +1,7 @@
 #ifndef VP_MP_SHARED_H
 #define VP_MP_SHARED_H
 #include "osobject.h"
-enum vp_in_idx { I_sm_n, I_sm0, I_sm1, I_mech, VP_IN_N };
+enum vp_in_idx { I_sm_n, I_sm0, I_sm1, I_mech, I_key_null, VP_IN_N };
 enum vp_out_idx { O_ret, VP_OUT_N };
 VP_C_BEGIN
 extern CK_ULONG vp_in[VP_IN_N];
